@@ -48,6 +48,8 @@ type Ctx struct {
 	Env        []string `json:"env,omitempty"` // additions: KEY=VALUE
 	GoMaxProcs int      `json:"gomaxprocs,omitempty"`
 	Plan       *Plan    `json:"plan,omitempty"` // only with Binary=="sim"; paths may contain {W}
+	// HomeRel puts HOME at {W}/<HomeRel> (created, with go telemetry off) instead of the shared scratch HOME.
+	HomeRel string `json:"home_rel,omitempty"`
 }
 
 type TraceRec struct {
@@ -115,9 +117,20 @@ func (e *Env) Run(root string, c Ctx) *Observation {
 	defer cancel()
 	cmd := exec.CommandContext(ctx, bin, args...)
 	cmd.Dir = subst(c.Cwd, root)
+	home := e.Home
+	if c.HomeRel != "" {
+		// HOME (and with it os.UserCacheDir / os.UserConfigDir) inside the world, so
+		// that the frame check sees anything a run leaves there
+		home = filepath.Join(root, c.HomeRel)
+		tdir := filepath.Join(home, ".config", "go", "telemetry")
+		if _, err := os.Stat(filepath.Join(tdir, "mode")); err != nil {
+			os.MkdirAll(tdir, 0o755)
+			os.WriteFile(filepath.Join(tdir, "mode"), []byte("off 2024-01-01\n"), 0o644)
+		}
+	}
 	env := []string{
 		"PATH=" + os.Getenv("PATH"),
-		"HOME=" + e.Home,
+		"HOME=" + home,
 		"TMPDIR=" + filepath.Join(root, "tmp"),
 		"GOCACHE=" + e.GoCache,
 		"GOMODCACHE=" + goModCache(),
